@@ -116,7 +116,7 @@ func rulesC01(c *Ctx) {
 		for _, fld := range []string{"allocations", "allocatedResource", "occupiedResource", "availableResource"} {
 			f := p.Field("objects.Node." + fld)
 			for _, w := range p.FieldWrites(f) {
-				if w.Fn != fn || w.Kind == "mutcall:Prune" {
+				if !p.inFn(w.Fn, fn) || w.Kind == "mutcall:Prune" {
 					continue
 				}
 				n++
